@@ -1,3 +1,227 @@
-"""Self-test driver (mutants / benign variants); filled in later."""
-def run_selftest(prop, jobs=16):
+"""Self-test of the rules: mutants must alarm, benign variants must not.
+
+Mutants are single edits applied to an in-memory overlay of a /repo source
+file (nothing is written to disk and no repository code is executed); each
+must yield at least one *new* finding whose rule id starts with the expected
+prefix.  Benign variants (whole-file ``ast.unparse`` round trip, local
+renames) must yield no new finding.  A surviving mutant or an alarming
+benign variant means the checker is broken: exit 2.
+"""
+from __future__ import annotations
+
+import ast
+import importlib
+import json
+import os
+import sys
+import time
+from concurrent.futures import ProcessPoolExecutor
+from typing import Any, Dict, List, Optional, Tuple
+
+from sa.model import REPO, Program
+from sa.report import EVIDENCE_DIR, load_known, run_check
+
+HERE = os.path.dirname(os.path.abspath(__file__))
+
+
+def load_mutants(prop: str) -> List[Dict[str, Any]]:
+    path = os.path.join(HERE, "mutants", prop.lower() + ".json")
+    if not os.path.exists(path):
+        return []
+    with open(path, "r", encoding="utf-8") as fh:
+        return json.load(fh)
+
+
+def apply_edit(text: str, old: str, new: str, nth: int = 0) -> str:
+    idx = -1
+    start = 0
+    for _ in range(nth + 1):
+        idx = text.find(old, start)
+        if idx < 0:
+            raise ValueError("mutant anchor text not found: " + old[:60])
+        start = idx + 1
+    return text[:idx] + new + text[idx + len(old):]
+
+
+def overlay_for(m: Dict[str, Any]) -> Dict[str, str]:
+    out: Dict[str, str] = {}
+    edits = m.get("edits") or [m]
+    for e in edits:
+        rel = e["file"]
+        if rel not in out:
+            with open(os.path.join(REPO, rel), "r", encoding="utf-8") as fh:
+                out[rel] = fh.read()
+        out[rel] = apply_edit(out[rel], e["old"], e["new"], e.get("nth", 0))
+        ast.parse(out[rel])   # must still compile
+    return out
+
+
+def findings_with(prop: str, overlays: Dict[str, str]
+                  ) -> Tuple[List[str], Optional[str]]:
+    """New (not known) finding keys for the overlaid program, or an
+    analysis error text."""
+    mod = importlib.import_module("rules." + prop.lower())
+    try:
+        prog = Program(overlays=overlays)
+        code, chk = run_check(prop, "thorough", mod.run, mod.META, prog=prog,
+                              quiet=True, write=False)
+    except Exception as ex:  # pylint: disable=broad-except
+        return [], "{}: {}".format(type(ex).__name__, ex)
+    known = {k["key"] for k in load_known()
+             if k.get("property") == prop and k.get("status") == "known"}
+    return sorted({f.key for f in chk.findings if f.key not in known}), None
+
+
+def _run_mutant(args: Tuple[str, Dict[str, Any]]) -> Dict[str, Any]:
+    prop, m = args
+    t0 = time.time()
+    try:
+        ov = overlay_for(m)
+    except Exception as ex:  # pylint: disable=broad-except
+        return {"id": m["id"], "status": "stale",
+                "detail": "{}: {}".format(type(ex).__name__, ex)}
+    keys, err = findings_with(prop, ov)
+    want = m.get("expect", prop)
+    hit = [k for k in keys if k.startswith(want)]
+    if err and m.get("accept_error"):
+        status = "killed"
+    elif err:
+        status = "error"
+    elif hit:
+        status = "killed"
+    else:
+        status = "survived"
+    return {"id": m["id"], "status": status, "findings": keys[:5],
+            "detail": err or "", "wall_s": round(time.time() - t0, 2)}
+
+
+# -- benign variants --------------------------------------------------------
+class _RenameLocals(ast.NodeTransformer):
+    """Rename every function-local variable that is not a parameter and not
+    used by a nested function: x -> x_r."""
+
+    def visit_FunctionDef(self, node: ast.FunctionDef) -> ast.AST:
+        params = {a.arg for a in node.args.posonlyargs + node.args.args +
+                  node.args.kwonlyargs}
+        if node.args.vararg:
+            params.add(node.args.vararg.arg)
+        if node.args.kwarg:
+            params.add(node.args.kwarg.arg)
+        nested_names = set()
+        has_nested = False
+        for n in ast.walk(node):
+            if n is not node and isinstance(
+                    n, (ast.FunctionDef, ast.Lambda, ast.ClassDef)):
+                has_nested = True
+        if has_nested:
+            self.generic_visit(node)
+            return node
+        stores = {n.id for n in ast.walk(node)
+                  if isinstance(n, ast.Name) and isinstance(n.ctx, ast.Store)}
+        globs = {nm for n in ast.walk(node)
+                 if isinstance(n, (ast.Global, ast.Nonlocal))
+                 for nm in n.names}
+        ren = {s: s + "_r" for s in stores - params - globs
+               if not s.startswith("_")}
+
+        class R(ast.NodeTransformer):
+            def visit_Name(self, n: ast.Name) -> ast.AST:
+                if n.id in ren:
+                    return ast.copy_location(
+                        ast.Name(id=ren[n.id], ctx=n.ctx), n)
+                return n
+        node = R().visit(node)
+        return node
+
+
+BENIGN_FILES = [
+    "yamlpath/processor.py", "yamlpath/yamlpath.py",
+    "yamlpath/common/keywordsearches.py", "yamlpath/common/searches.py",
+    "yamlpath/common/nodes.py", "yamlpath/common/anchors.py",
+    "yamlpath/path/searchkeywordterms.py", "yamlpath/merger/merger.py",
+    "yamlpath/merger/mergerconfig.py", "yamlpath/differ/differ.py",
+    "yamlpath/commands/yaml_set.py", "yamlpath/commands/yaml_merge.py",
+    "yamlpath/commands/yaml_get.py", "yamlpath/commands/yaml_diff.py",
+    "yamlpath/commands/yaml_paths.py", "yamlpath/commands/yaml_validate.py",
+    "yamlpath/commands/eyaml_rotate_keys.py",
+    "yamlpath/eyaml/eyamlprocessor.py", "yamlpath/common/parsers.py",
+]
+
+
+def benign_variants() -> List[Tuple[str, Dict[str, str]]]:
+    texts: Dict[str, str] = {}
+    for rel in BENIGN_FILES:
+        with open(os.path.join(REPO, rel), "r", encoding="utf-8") as fh:
+            texts[rel] = fh.read()
+    unparsed = {rel: ast.unparse(ast.parse(t)) for rel, t in texts.items()}
+    renamed = {}
+    for rel, t in texts.items():
+        tree = _RenameLocals().visit(ast.parse(t))
+        renamed[rel] = ast.unparse(ast.fix_missing_locations(tree))
+    return [("unparse-roundtrip", unparsed), ("rename-locals", renamed)]
+
+
+def _run_benign(args: Tuple[str, str, Dict[str, str]]) -> Dict[str, Any]:
+    prop, name, ov = args
+    keys, err = findings_with(prop, ov)
+    status = "silent" if not keys and not err else "alarm"
+    return {"id": name, "status": status, "findings": keys[:5],
+            "detail": err or ""}
+
+
+def run_selftest(prop: str, jobs: int = 16, verbose: bool = True) -> int:
+    t0 = time.time()
+    mutants = load_mutants(prop)
+    tasks = [(prop, m) for m in mutants]
+    btasks = [(prop, name, ov) for name, ov in benign_variants()]
+    results: List[Dict[str, Any]] = []
+    bresults: List[Dict[str, Any]] = []
+    if jobs > 1 and (tasks or btasks):
+        with ProcessPoolExecutor(max_workers=jobs) as ex:
+            results = list(ex.map(_run_mutant, tasks))
+            bresults = list(ex.map(_run_benign, btasks))
+    else:
+        results = [_run_mutant(t) for t in tasks]
+        bresults = [_run_benign(t) for t in btasks]
+    bad = [r for r in results if r["status"] != "killed"]
+    balarm = [r for r in bresults if r["status"] != "silent"]
+    if verbose:
+        print("SELFTEST {}: mutants={} killed={} benign={} silent={} "
+              "wall={:.1f}s".format(
+                  prop, len(results),
+                  sum(1 for r in results if r["status"] == "killed"),
+                  len(bresults),
+                  sum(1 for r in bresults if r["status"] == "silent"),
+                  time.time() - t0))
+        for r in bad:
+            print("  MUTANT {} {}: {} {}".format(
+                r["status"].upper(), r["id"], r.get("detail", ""),
+                r.get("findings", "")))
+        for r in balarm:
+            print("  BENIGN-ALARM {}: {} {}".format(
+                r["id"], r.get("detail", ""), r.get("findings", "")))
+    # append to evidence
+    path = os.path.join(EVIDENCE_DIR, prop + ".json")
+    if os.path.exists(path):
+        with open(path, "r", encoding="utf-8") as fh:
+            doc = json.load(fh)
+        doc["coverage"]["selftest"] = {
+            "mutants": len(results),
+            "killed": sum(1 for r in results if r["status"] == "killed"),
+            "mutant_results": results,
+            "benign": bresults,
+        }
+        doc["tier"] = "thorough"
+        with open(path, "w", encoding="utf-8") as fh:
+            json.dump(doc, fh, indent=1, default=str)
+    if bad or balarm:
+        print("ANALYSIS-ERROR property={} self-test failed: {} mutant(s) "
+              "not killed, {} benign variant(s) alarmed".format(
+                  prop, len(bad), len(balarm)))
+        return 2
     return 0
+
+
+if __name__ == "__main__":
+    sys.path.insert(0, os.path.dirname(HERE))
+    sys.exit(run_selftest(sys.argv[1]))
